@@ -49,3 +49,7 @@ def run(ctx, replay=None):
                       {"stuck": stuck, "violated": r.violated, "trace_window": lines[max(0, at - 25):at + 1]})
     else:
         ctx.traces += n
+    # the certificate token of CTFE.tla opened: what the stored entry decodes to, per shape of submission
+    ctfe_common.entry_shapes(ctx, "C06")
+    # every entry stays served when issuance chains live outside the backend, across storage faults and cold caches
+    ctfe_common.external_storage(ctx)
